@@ -131,9 +131,12 @@ Ltac dcond := match goal with
   end.
 
 (* the walk of decodeName over  pre ++ wire_of_labels ls ++ post *)
+(* no label contains '.' (0x2e): since repo commit c8663df the library's decodeName rejects such a label *)
+Definition no_dots (ls : list bytes) : Prop := Forall (fun l => existsb (N.eqb 46) l = false) ls.
+
 Lemma dns_labels_walk ls : forall a pre post acc fuel L offset,
   a = pre ++ wire_of_labels ls ++ post ->
-  labels_ok ls -> (length ls < fuel)%nat ->
+  labels_ok ls -> no_dots ls -> (length ls < fuel)%nat ->
   (offset <= length pre)%nat ->
   (length pre + length (wire_of_labels ls) - offset <= 255)%nat ->
   (length pre + length (wire_of_labels ls) <= L)%nat ->
@@ -141,14 +144,16 @@ Lemma dns_labels_walk ls : forall a pre post acc fuel L offset,
   dns_labels fuel (mkSlice a L) offset (length pre) acc =
   Ok (rev acc ++ ls, length pre + length (wire_of_labels ls) - 1)%nat.
 Proof.
-  induction ls as [|l ls IH]; intros a pre post acc fuel L offset Ha Hok Hf Hoff H255 HL Hcap.
+  induction ls as [|l ls IH]; intros a pre post acc fuel L offset Ha Hok Hnd Hf Hoff H255 HL Hcap.
   - destruct fuel as [|f]; [cbn in Hf; blia|]. cbn [wire_of_labels app length] in *.
     cbn [dns_labels]. unfold idx. cbn [len arr].
     destruct (Nat.ltb_spec (length pre) L) as [_|C]; [|blia]. cbn [bind].
     rewrite Ha. rewrite app_nth2 by blia. rewrite Nat.sub_diag. cbn [nth]. change (0 =? 0) with true. cbn iota.
+    destruct (Nat.ltb_spec 254 (length pre - offset)) as [C|_]; [blia|].
     rewrite app_nil_r. f_equal. f_equal. blia.
   - destruct fuel as [|f]; [cbn in Hf; blia|].
     unfold labels_ok in Hok. apply Forall_cons_iff in Hok. destruct Hok as [Hl Hr]. unfold label_ok in Hl.
+    unfold no_dots in Hnd. apply Forall_cons_iff in Hnd. destruct Hnd as [Hnl Hnr].
     pose proof (wire_length_pos ls) as Hw.
     assert (Hwl : length (wire_of_labels (l :: ls)) = (1 + length l + length (wire_of_labels ls))%nat).
     { cbn [wire_of_labels length]. rewrite app_length. blia. }
@@ -180,10 +185,10 @@ Proof.
       rewrite Ha3.
       rewrite skipn_app_len by (rewrite app_length; cbn [length]; blia).
       apply firstn_app_exact. }
-    rewrite Hview.
+    rewrite Hview. rewrite Hnl.
     replace (length pre + length l + 1)%nat with (length (pre ++ N.of_nat (length l) :: l))
       by (rewrite app_length; cbn [length]; blia).
-    rewrite (IH a (pre ++ N.of_nat (length l) :: l) post (l :: acc) f L offset Ha2 Hr).
+    rewrite (IH a (pre ++ N.of_nat (length l) :: l) post (l :: acc) f L offset Ha2 Hr Hnr).
     + cbn [rev]. rewrite <- app_assoc. cbn [app]. f_equal. f_equal.
       rewrite app_length. cbn [length]. blia.
     + cbn [length] in Hf. blia.
@@ -214,9 +219,10 @@ Theorem dnsquery_rt id fl ls qt :
     encode_dns_query id fl name qt = Ok p /\
     len p = (16 + length name)%nat /\ cap p = 512%nat /\
     view p = dns_query_bytes id fl name qt /\ bytes_ok (view p) /\
-    dns_decode_lib p = Ok {| dv_id := id; dv_flags := fl; dv_qd := 1; dv_an := 0; dv_ns := 0; dv_ar := 0;
+    (no_dots ls ->
+     dns_decode_lib p = Ok {| dv_id := id; dv_flags := fl; dv_qd := 1; dv_an := 0; dv_ns := 0; dv_ar := 0;
                              dv_question := {| q_labels := ls; q_type := qt; q_class := 1;
-                                               q_end := (16 + length name)%nat |} |} /\
+                                               q_end := (16 + length name)%nat |} |}) /\
     ref_dns_query (view p) =
       Some {| rq_id := id; rq_flags := fl; rq_qd := 1; rq_an := 0; rq_ns := 0; rq_ar := 0;
               rq_labels := ls; rq_type := qt; rq_class := 1; rq_trailing := [] |}.
@@ -244,7 +250,7 @@ Proof.
     apply bytes_ok_app. split; [apply wire_ok; assumption|].
     repeat (apply bytes_ok_cons; split; [first [lia | apply hi8_lt | apply lo8_lt]|]). apply bytes_ok_nil. }
   split.
-  { (* header words *)
+  { intros Hnd. (* header words *)
     assert (Hw : forall k x y, (k + 2 <= 12)%nat -> nth k (dns_hdr id fl) 0 = x -> nth (k + 1) (dns_hdr id fl) 0 = y ->
                  be16_at (mkSlice a (16 + n)) k = Ok (be16 x y)).
     { intros k x y Hkk Hx Hy. unfold be16_at, cap. cbn [arr]. rewrite Hla.
@@ -263,7 +269,7 @@ Proof.
     rewrite (Hw 4%nat 0 1) by (try reflexivity; blia). cbn [bind].
     change (be16 0 1 =? 1) with true. cbn [negb]. cbn iota. cbn [len].
     destruct (Nat.ltb_spec (16 + n) (12 + 5)) as [C|_]; [blia|].
-    pose proof (dns_labels_walk ls a (dns_hdr id fl) post [] (S (16 + n)) (16 + n)%nat 12%nat Ha Hok) as W.
+    pose proof (dns_labels_walk ls a (dns_hdr id fl) post [] (S (16 + n)) (16 + n)%nat 12%nat Ha Hok Hnd) as W.
     change (length (dns_hdr id fl)) with 12%nat in W. fold name n in W.
     rewrite W by (pose proof (wire_length_ge ls); unfold n, name in *; cbn [dns_hdr length] in *; blia).
     cbn [bind rev app].
@@ -299,3 +305,11 @@ Example dnsquery_root_ex :
   exists p, encode_dns_query 1 256 (wire_of_labels []) 1 = Ok p /\ len p = 17%nat /\
             (q <- dns_decode_question p ;; Ok (q_labels q, q_type q, q_class q, q_end q))%res = Ok ([], 1, 1, 17%nat).
 Proof. eexists. split; [vm_compute; reflexivity|]. split; [reflexivity|vm_compute; reflexivity]. Qed.
+
+(* since repo commit c8663df: a label containing '.' is still encoded (and read back by the reference decoder)
+   but refused by the library's decodeName *)
+Example dnsquery_dot_label :
+  let ls := [[97;46;98]; [99]] in
+  exists p, encode_dns_query 1 0 (wire_of_labels ls) 1 = Ok p /\
+            option_map rq_labels (ref_dns_query (view p)) = Some ls /\ dns_decode_lib p = Err EParseFrame.
+Proof. cbn zeta. eexists. split; [vm_compute; reflexivity|]. split; vm_compute; reflexivity. Qed.
